@@ -67,7 +67,7 @@ Run ==
     \* selector plus a trusted tail, and none was relative to the working directory
     /\ (IF \A i \in 1..Len(Ev[l].paths) : H!LiteralPath(info.d, Ev[l].paths[i]) THEN TRUE
         ELSE RecordDrift(tid, l, "LiteralPath: a path handed to the OS is not root + selector"))
-    /\ (IF Ev[l].relpaths = 0 THEN TRUE ELSE RecordDrift(tid, l, "LiteralPath: a relative path was handed to the OS"))
+    /\ (IF Ev[l].relpaths = 0 THEN TRUE ELSE RecordDrift(tid, l, "LiteralPath: a relative path, or one not under the root string, was handed to the OS"))
 
 End ==
     /\ l <= Len(Ev) /\ verdict = "ok" /\ Ev[l].ev = "end"
